@@ -96,6 +96,7 @@ struct RunStats {
 void install();                          // once per process
 void begin_run(const RunConfig &cfg);    // caller becomes task 0
 void end_run(RunStats &out);             // all created tasks must be finished; deactivates
+void peek_stats(RunStats &out);          // counters of the run in progress (used when a run ends abnormally)
 bool active();
 void obs(uint64_t v);                    // fold a value into H_obs
 void shape(uint64_t v);                  // fold a value into H_shape
